@@ -305,7 +305,9 @@ def measures(seed, n, perms):
             klass = "polygon n=%d" % len(verts)
             acc.case(klass)
             case = dict(polygon=ser(("Polygon", tuple(order))))
-            r = _call(lambda: g.ConvexPolygon(tuple(P(v) for v in order)))
+            form = acc.ev % 3  # the plain constructor; the public reverse=True keyword (same polygon, opposite normal); the negation of the polygon
+            case["form"] = ("ConvexPolygon(points)", "ConvexPolygon(points, reverse=True)", "-ConvexPolygon(points)")[form]
+            r = _call(lambda: g.ConvexPolygon(tuple(P(v) for v in order), reverse=True) if form == 1 else (-g.ConvexPolygon(tuple(P(v) for v in order)) if form == 2 else g.ConvexPolygon(tuple(P(v) for v in order))))
             if r[0] == "exc":
                 acc.fail(klass, "constructor raised %r" % (r[1],), case)
                 continue
@@ -360,7 +362,10 @@ def replay_measures(case):
     if "polygon" in case:
         pg = deser(case["polygon"])
         canon = ("Polygon", tuple(O.order_cyclic(list(pg[1]))))
-        r = g.ConvexPolygon(tuple(P(v) for v in pg[1]))
+        form = case.get("form", "")
+        r = g.ConvexPolygon(tuple(P(v) for v in pg[1]), reverse=True) if "reverse" in form else g.ConvexPolygon(tuple(P(v) for v in pg[1]))
+        if form.startswith("-"):
+            r = -r
         ok = close(r.length(), O.perimeter_float(canon)) and close(r.area(), O.area_float(canon))
         return dict(fails=not ok, observed=dict(length=r.length(), area=r.area()), expected=dict(length=O.perimeter_float(canon), area=O.area_float(canon)))
     ph = deser(case["polyhedron"])
